@@ -23,10 +23,10 @@ PROPS = {
         explanation='Per-function contracts on the real handlers are discharged deductively (level: proof modulo R4/R8-R13, listed); the history-level induction over N nodes x network x crashes is NOT claimed — the lemmas show how the per-handler contracts compose.',
     ),
     'C02': dict(
-        v=['C02_replay', 'C02_durable'], k=[], b=['c02_durable'],
-        pairs={'C02_replay': ['bounded:c02_durable'], 'C02_durable': ['bounded:c02_durable']},
+        v=['C02_replay', 'C02_append', 'C02_durable'], k=[], b=['c02_durable'],
+        pairs={'C02_replay': ['bounded:c02_durable'], 'C02_durable': ['bounded:c02_durable'], 'C02_append': ['bounded:c02_durable']},
         level='other',
-        technique='Verus: extracted WAL replay loop proved equal to a parse spec over a ghost byte stream + crash-prefix / whole-log theorems; the durable writers SlabRouter::{put_durable, delete_durable, checkpoint} proved against ghost (memory map, WAL record sequence, snapshot map): acknowledged only after the record is at the end of the WAL, memory never ahead of the WAL, checkpoint installs the snapshot before marker and truncation at every exit, replay idempotence theorem',
+        technique='Verus: extracted WAL replay loop proved equal to a parse spec over a ghost byte stream + crash-prefix / whole-log theorems; the WAL writer TensorWal::{write_entry_no_sync, maybe_sync, append} proved to emit exactly one record of that format, to leave at most a torn record on failure and (SyncMode::Immediate) to acknowledge only after fsync; the durable writers SlabRouter::{put_durable, delete_durable, checkpoint} proved against ghost (memory map, WAL record sequence, snapshot map): acknowledged only after the record is at the end of the WAL, memory never ahead of the WAL, checkpoint installs the snapshot before marker and truncation at every exit, replay idempotence theorem',
         claim='TensorWal::replay_with_validation returns exactly parse(file) for every file content (Verus, modulo assumed read_exact/crc/codec contracts); parse(log ++ torn record) == log for every cut point (theorem); for every store state and every failure point between storage calls the writers leave (snapshot, WAL) such that replay returns every acknowledged write (Verus; append/truncate/save atomic w.r.t. their result, lock erased)',
         explanation='Replay/parse and the crash-prefix theorem are proved for all logs and all cut points; open/append/recover/checkpoint sequences on real files are bounded.',
     ),
